@@ -26,6 +26,8 @@ var pathDocs = []string{
 	`[0,-0,1.5,-2,1e300,"1","abc",true,false,null,[1],{"a":1}]`,
 	`{"n":[1,2,3,4,5,6,7,8,9,10],"s":["a","b","c"],"m":[[1,2],[3,4,5],[],[6]]}`,
 	`7`, `"str"`, `null`, `[]`, `{}`, `[1e400,1]`,
+	// control characters of both halves of the C0 range in keys (their \u00XX escapes differ in the high nibble), next to their low-nibble twins
+	`{"\u001b":{"x":1},"\u000b":{"x":2},"\u0010":[3],"\u0000":[4],"\u001f\u000f":5,"plain":{"x":6}}`,
 	// escapes followed by a long tail (an in-place or pooled unescape shows only when the rest of the string is long), in values and keys
 	`{"msg":"line1\nline2 and a rather long tail","k\tey with a long tail":[1,"x\u0041yz and some more text here"],"list":[{"msg":"tab\there and a long tail after it","id":1},{"msg":"plain","id":2}]}`,
 	// members whose VALUE names a key or index of the same container (script segments reading their key from the container)
@@ -236,6 +238,40 @@ func withWatchdog(limit time.Duration, f func()) bool {
 	}
 }
 
+// viewsDisagree: some container's GetArray/GetObject/Value differs from its children as GetIndex/GetKey/Inheritors give them
+func viewsDisagree(p *probeRun) string {
+	for _, n := range p.liveNodes() {
+		switch {
+		case n.IsArray():
+			arr, err := n.GetArray()
+			if err != nil || len(arr) != n.Size() {
+				return fmt.Sprintf("GetArray of %s has %d entries, Size is %d (%v)", n.Path(), len(arr), n.Size(), err)
+			}
+			v, _ := n.Value()
+			varr, _ := v.([]*ajson.Node)
+			inh := n.Inheritors()
+			for i := range arr {
+				c, err := n.GetIndex(i)
+				if err != nil || arr[i] != c || len(varr) != len(arr) || varr[i] != c || len(inh) != len(arr) || inh[i] != c {
+					return fmt.Sprintf("entry %d of GetArray/Value/Inheritors of %s is not the element GetIndex returns", i, n.Path())
+				}
+			}
+		case n.IsObject():
+			obj, err := n.GetObject()
+			if err != nil || len(obj) != n.Size() {
+				return fmt.Sprintf("GetObject of %s has %d entries, Size is %d (%v)", n.Path(), len(obj), n.Size(), err)
+			}
+			for _, k := range n.Keys() {
+				c, err := n.GetKey(k)
+				if err != nil || obj[k] != c {
+					return fmt.Sprintf("member %x of GetObject of %s is not the node GetKey returns", k, n.Path())
+				}
+			}
+		}
+	}
+	return ""
+}
+
 // runQuery executes one JSONPath/Eval query from handle startH of session p through every check of the path stream: reference
 // evaluation (which logs the stdlib answers the model needs), the implementation under a watchdog, the model comparison, purity
 // (C13), and the independent evaluator (C07/C08/C09/C10). It returns false when the stream has to stop.
@@ -312,9 +348,45 @@ func runQuery(o *Out, p *probeRun, si int, sr *Rng, startH string, isPath bool, 
 		o.Fail("C13", "query-pure", "a query changed the document: "+kind+" "+text, strings.Join(p.hist, "\n"), firstDiff(privBefore, after), "")
 	}
 	emit([]string{"dump"}, p.s.dump())
-	if isPath && !damaged && start != nil && len(sels) >= 3 && !usesLengthName(sels) {
+	// … nor what the container accessors hand out: after the query GetArray/GetObject/Value still list exactly the children
+	// (the cached child list is not part of the private dump, it is checked here through the public views)
+	if bad := viewsDisagree(p); bad != "" {
+		o.Fail("C13", "query-pure", "after the query "+kind+" "+text+" the container accessors no longer list the children: "+bad, strings.Join(p.hist, "\n")+"\n"+kind+" "+startH+" "+text, "", bad)
+	}
+	if isPath && !damaged && start != nil && len(sels) >= 2 && !usesLengthName(sels) {
 		histL := strings.Join(p.hist, "\n") + "\n" + kind + " " + startH + " " + text
 		full, fullErr := start.JSONPath(text)
+		// "an expression gives the same verdict inside a path as through Eval": when Eval of the segment's expression succeeds
+		// on every incoming container, the segment has a verdict for each of them — the path cannot fail on it
+		if last := sels[len(sels)-1]; (last.Kind == "filter" || last.Kind == "script") && fullErr != nil {
+			if pre, perr := start.JSONPath(printSels(sels[:len(sels)-1])); perr == nil {
+				o.Check("C08", "verdict-as-eval")
+				exprText := printExpr(last.Expr, nil)
+				allOK := true
+				for _, n := range pre {
+					if !(n.IsArray() || n.IsObject()) {
+						continue
+					}
+					targets := []*ajson.Node{n}
+					if last.Kind == "filter" {
+						targets = n.Inheritors()
+					}
+					for _, t := range targets {
+						if v, eerr := ajson.Eval(t, exprText); eerr != nil {
+							allOK = false
+						} else if v != nil && v.IsNumeric() {
+							// the verdict needs the number itself: reading an out-of-range literal is the one permitted error
+							if _, nerr := v.GetNumeric(); nerr != nil {
+								allOK = false
+							}
+						}
+					}
+				}
+				if allOK {
+					o.Fail("C08", "verdict-as-eval", "Eval of the segment's expression succeeds on every incoming node, but the path returns an error ("+exprText+")", histL, "no error", fullErr.Error())
+				}
+			}
+		}
 		// locality of a filter/script segment: over several incoming nodes it selects what it selects on each
 		// of them alone, in order (no temporary survives from one incoming node to the next)
 		if last := sels[len(sels)-1]; len(sels) >= 3 && fullErr == nil && (last.Kind == "filter" || last.Kind == "script") {
@@ -517,10 +589,116 @@ func streamPath(o *Out, r *Rng, tier string) {
 	streamOperatorChains(o, tier)
 	streamSliceSweep(o, tier)
 	streamOperandMatrix(o, r.Fork(31337), tier)
+	streamScriptSweep(o, r.Fork(4711), tier)
+	streamSliceThen(o, r.Fork(815), tier)
+}
+
+// streamSliceThen: a slice followed by another selector, over elements that are containers themselves (what the slice hands on is
+// a list the next selector appends to and iterates over — it must be a list of its own, not a window into anything the tree holds).
+func streamSliceThen(o *Out, r *Rng, tier string) {
+	for _, doc := range []string{`{"arr":[{"x":{"y":1}},{"z":2},{"w":{"y":3}},[4,[5,{"y":6}]],7]}`, `[[1,[2]],[3,[4]],[5,[6]],[7]]`} {
+		p := &probeRun{o: o, s: &Session{}, ref: map[*ajson.Node]*Ref{}}
+		exec := func(f []string) string {
+			obs := p.step(f, false)
+			o.Emit(reqLine(f), obs, "")
+			return obs
+		}
+		g := &HistGen{r: r, s: p.s, exec: exec}
+		g.do("reset")
+		g.do("parse", hexOrDash([]byte(doc)))
+		if len(p.s.handles) == 0 {
+			continue
+		}
+		// read the arrays once, so that their child lists are cached when the queries run
+		g.do("read", "0", "unpack")
+		g.do("read", "0", "array")
+		o.Emit(reqLine([]string{"dump"}), p.s.dump(), "")
+		prefix := []Sel{{Kind: "root"}}
+		if strings.HasPrefix(doc, "{") {
+			prefix = append(prefix, Sel{Kind: "name", Name: "arr"})
+		}
+		bounds := []*int{nil, ip(0), ip(1), ip(2), ip(3), ip(-1)}
+		suffixes := [][]Sel{
+			{{Kind: "descent"}, {Kind: "wild"}}, {{Kind: "descent"}, {Kind: "name", Name: "y"}}, {{Kind: "descent"}}, {{Kind: "wild"}},
+			{{Kind: "index", Index: 0}}, {{Kind: "slice", S: [3]*int{ip(0), ip(1), nil}}, {Kind: "descent"}, {Kind: "wild"}},
+		}
+		for _, a := range bounds {
+			for _, b := range bounds {
+				for _, st := range []*int{nil, ip(1), ip(2), ip(-1)} {
+					for _, suf := range suffixes {
+						sels := append(append([]Sel{}, prefix...), Sel{Kind: "slice", S: [3]*int{a, b, st}})
+						sels = append(sels, suf...)
+						o.Stat("slicethen.queries")
+						if !runQuery(o, p, -3, r, "0", true, printSels(sels), sels, nil, false) {
+							return
+						}
+					}
+				}
+			}
+		}
+	}
+}
+
+// streamScriptSweep: script and filter segments whose expression reads the key or index from the container itself, over every
+// fan-out prefix, on the documents whose member values name keys and indexes of the same container (every member name and the
+// first indexes as the thing read). Each query goes through runQuery (model, independent evaluator, segment-local, purity).
+func streamScriptSweep(o *Out, r *Rng, tier string) {
+	for _, doc := range pathDocs {
+		if !strings.Contains(doc, `"k":"a"`) && !strings.Contains(doc, `"x":[1,"p"`) && !strings.Contains(doc, `[[1,"a"]`) {
+			continue
+		}
+		p := &probeRun{o: o, s: &Session{}, ref: map[*ajson.Node]*Ref{}}
+		exec := func(f []string) string {
+			obs := p.step(f, false)
+			o.Emit(reqLine(f), obs, "")
+			return obs
+		}
+		g := &HistGen{r: r, s: p.s, exec: exec}
+		g.do("reset")
+		g.do("parse", hexOrDash([]byte(doc)))
+		if len(p.s.handles) == 0 {
+			continue
+		}
+		o.Emit(reqLine([]string{"dump"}), p.s.dump(), "")
+		names := map[string]bool{}
+		collectNames(refRoot(p.ref[p.s.handles[0]]), names)
+		var reads []*Expr
+		for n := range names {
+			if exprDotSafe(n) {
+				reads = append(reads, &Expr{Kind: "path", Path: []Sel{{Kind: "current"}, {Kind: "name", Name: n}}})
+			}
+		}
+		sort.Slice(reads, func(i, j int) bool { return reads[i].Path[1].Name < reads[j].Path[1].Name })
+		for _, i := range []int{0, 1, -1} {
+			reads = append(reads, &Expr{Kind: "path", Path: []Sel{{Kind: "current"}, {Kind: "index", Index: i}}})
+		}
+		// values that are numbers but no indexes, and other value types
+		num := func(x string) *Expr { return &Expr{Kind: "num", Num: x} }
+		lengthOf := &Expr{Kind: "call", Name: "length", L: &Expr{Kind: "path", Path: []Sel{{Kind: "current"}}}}
+		reads = append(reads, num("0.5"), num("1.5"), &Expr{Kind: "bin", Name: "/", L: num("1"), R: num("2")},
+			&Expr{Kind: "bin", Name: "/", L: lengthOf, R: num("2")}, &Expr{Kind: "bin", Name: "-", L: num("0"), R: num("0.5")},
+			num("1e300"), &Expr{Kind: "const", Name: "true"}, &Expr{Kind: "const", Name: "null"}, &Expr{Kind: "str", Str: "a", Q: '\''})
+		prefixes := [][]Sel{
+			{{Kind: "wild"}}, {{Kind: "descent"}, {Kind: "wild"}}, {}, {{Kind: "wild"}, {Kind: "wild"}},
+			{{Kind: "slice", S: [3]*int{nil, nil, ip(-1)}}},
+		}
+		for _, pre := range prefixes {
+			for _, rd := range reads {
+				for _, kind := range []string{"script", "filter"} {
+					sels := append([]Sel{{Kind: "root"}}, pre...)
+					sels = append(sels, Sel{Kind: kind, Expr: rd})
+					o.Stat("scriptsweep.queries")
+					if !runQuery(o, p, -2, r, "0", true, printSels(sels), sels, nil, false) {
+						return
+					}
+				}
+			}
+		}
+	}
 }
 
 // matrixDoc: one member of every operand class an operator or function can meet
-const matrixDoc = `{"i":-1,"z":0,"p":2,"f":0.5,"nf":-2.5,"h":64,"big":1e300,"s":"a","ds":"12","es":"","t":true,"fl":false,"n":null,"arr":[1,2],"ea":[],"obj":{"k":1},"eo":{},"r":1e400,"b64":"YWJj"}`
+const matrixDoc = `{"i":-1,"z":0,"p":2,"f":0.5,"nf":-2.5,"h":64,"big":1e300,"s":"a","ds":"12","es":"","t":true,"fl":false,"n":null,"arr":[1,2],"ea":[],"obj":{"k":1},"eo":{},"r":1e400,"b64":"YWJj","huge":4000000000000000000,"c3":[1e100,1,-1e100],"co":{"a":1e100,"b":1,"c":-1e100},"tiny":[1e-10,2e-10]}`
 
 // streamOperandMatrix: every binary operator on every pair of operand classes, every function on every operand class — literals
 // and values read from the document (negative, zero, fractional, huge, out-of-range, strings, booleans, null, containers, absent)
@@ -542,7 +720,7 @@ func streamOperandMatrix(o *Out, r *Rng, tier string) {
 		lit("num", "-1"), lit("num", "0"), lit("num", "2"), lit("num", "0.5"), lit("num", "-2.5"), lit("num", "64"), lit("num", "1e300"),
 		lit("str", "a"), lit("str", ""), lit("str", "12"), lit("const", "true"), lit("const", "false"), lit("const", "null"),
 		lit("path", "i"), lit("path", "z"), lit("path", "f"), lit("path", "s"), lit("path", "t"), lit("path", "n"), lit("path", "arr"),
-		lit("path", "ea"), lit("path", "obj"), lit("path", "missing"), lit("path", "r"), lit("path", "big"), lit("path", "b64"),
+		lit("path", "ea"), lit("path", "obj"), lit("path", "missing"), lit("path", "r"), lit("path", "big"), lit("path", "b64"), lit("path", "huge"), lit("num", "4000000000000000000"), lit("num", "18446744073709551615"),
 		{Kind: "path", Path: []Sel{{Kind: "current"}}}, {Kind: "path", Path: []Sel{{Kind: "root"}, {Kind: "descent"}, {Kind: "name", Name: "k"}}},
 		{Kind: "path", Path: []Sel{{Kind: "current"}, {Kind: "name", Name: "arr"}, {Kind: "wild"}}},
 	}
@@ -595,6 +773,25 @@ func streamOperandMatrix(o *Out, r *Rng, tier string) {
 	for _, fn := range fnNames {
 		for _, a := range operands {
 			if !run(&Expr{Kind: "call", Name: fn, L: a}) {
+				return
+			}
+		}
+	}
+	// aggregates go over the elements in document order (array index, sorted keys): floating-point addition is not associative,
+	// so an implementation that walks the children map in Go's random order gives another sum now and then — ask many times
+	for rep := 0; rep < 16; rep++ {
+		for _, fn := range []string{"sum", "avg"} {
+			for _, m := range []string{"c3", "co"} {
+				if !run(&Expr{Kind: "call", Name: fn, L: lit("path", m)}) {
+					return
+				}
+			}
+		}
+	}
+	// equality is exact: numbers that differ in the last bits are different
+	for _, pair := range [][2]string{{"0.0000000001", "0.0000000002"}, {"1", "1.0000000000001"}, {"0", "1e-300"}, {"1e300", "1.0000000000001e300"}} {
+		for _, op := range []string{"==", "!=", "<", "<=", ">", ">="} {
+			if !run(&Expr{Kind: "bin", Name: op, L: lit("num", pair[0]), R: lit("num", pair[1])}) {
 				return
 			}
 		}
